@@ -34,6 +34,7 @@ func runOSProc(n int64, lang int64, seed int64) {
 	// a larger request first, then the process's own count twice: storage recycled between calls of
 	// different sizes must not leak into a mnemonic
 	for k, nn := range []int64{24, n, n} {
+		disturbBeforeDraw(k, lang, seed) // (k = 0: nothing, the first draw of the process stays cold)
 		emit(Event{"op": "OSMark", "id": k})
 		mark("BEGIN")
 		recNewMnemonic(nn, lang, Event{"default_source": true})
@@ -65,6 +66,7 @@ func runOSProc(n int64, lang int64, seed int64) {
 		src.delay, srcDelayMs = 0, 0
 	}
 	swapSource(osRandReader(), "os")
+	disturbBeforeDraw(3, lang, seed)
 	emit(Event{"op": "OSMark", "id": 3})
 	mark("BEGIN")
 	recNewMnemonic(n, lang, Event{"default_source": true})
@@ -74,10 +76,56 @@ func runOSProc(n int64, lang int64, seed int64) {
 	if ms, _ := strconv.Atoi(os.Getenv("VERIF_IDLE_MS")); ms > 0 {
 		time.Sleep(time.Duration(ms) * time.Millisecond)
 		for k := 0; k < 8; k++ {
+			disturbBeforeDraw(4+k, lang, seed)
 			emit(Event{"op": "OSMark", "id": 4 + k})
 			mark("BEGIN")
 			recNewMnemonic([]int64{n, 24, 12, 15}[k%4], lang, Event{"default_source": true})
 			mark("END")
+		}
+	}
+}
+
+// disturbBeforeDraw: other exported calls, ending in different ways, made right before a draw from the default source
+// (outside the strace markers).  What NewMnemonic returns next is still the encoding of the bytes the OS delivers to it:
+// nothing a validation, derivation or rejected request left behind takes part (seeded change C07m: a shared SHA-256 state
+// left dirty by a rejected checksum).  Which call comes last differs from draw to draw.
+func disturbBeforeDraw(k int, lang int64, seed int64) {
+	if k == 0 {
+		return
+	}
+	l := int(lang)
+	if l < 0 || l > 9 {
+		l = 1
+	}
+	L := int64(l)
+	r := newRng(seed, "osdisturb/"+strconv.Itoa(k))
+	ent := r.bytes(sizes[k%len(sizes)])
+	idx := indicesOf(ent)
+	good := sentence(idx, l, " ")
+	wrong := append([]int(nil), idx...)
+	wrong[len(wrong)-1] ^= 1 // list words, accepted count, wrong checksum
+	unknown := good + "x"
+	short := sentence(idx[:len(idx)-1], l, " ")
+	steps := [][]string{{"checksum"}, {"unknown", "entlen"}, {"encode", "wordlen", "checksum"}, {"valid", "seed"}, {"checksum", "checksum"},
+		{"seed", "unknown", "checksum"}, {"wordcount"}, {"encode", "checksum", "valid", "checksum"}}[(k-1)%8]
+	for _, st := range steps {
+		switch st {
+		case "checksum":
+			recCheck(sentence(wrong, l, " "), L, Event{"cls": "subst"})
+		case "unknown":
+			recCheck(unknown, L, Event{"cls": "damage"})
+		case "wordlen":
+			recCheck(short, L, Event{"cls": "drop"})
+		case "valid":
+			recCheck(good, L, Event{"cls": "valid"})
+		case "encode":
+			recByEntropy(ent, L, nil)
+		case "entlen":
+			recByEntropy(ent[:len(ent)-1], L, nil)
+		case "seed":
+			recToSeed(good, "", false, nil)
+		case "wordcount":
+			recNewMnemonic(13, L, nil)
 		}
 	}
 }
